@@ -87,14 +87,14 @@ def parse_embedded_scalar(scalar, version=LATEST_VER):
         return None
     elif isinstance(scalar, list):
         # We support this only in version 3.0 and up.
-        if version < VER_3_0:
+        if Version.nearest(version) < VER_3_0:
             raise ValueError('Lists are not supported in Haystack version %s' \
                              % version)
         return list(map(functools.partial(parse_scalar, version=version),
                         scalar))
     elif isinstance(scalar, dict):
         # We support this only in version 3.0 and up.
-        if version < VER_3_0:
+        if Version.nearest(version) < VER_3_0:
             raise ValueError('Dicts are not supported in Haystack version %s' \
                              % version)
         if sys.version_info[0] < 3 and {"meta", "cols", "rows"} <= scalar.viewkeys() \
@@ -145,6 +145,10 @@ def parse_embedded_scalar(scalar, version=LATEST_VER):
         # x:<type>:<payload>, the payload may itself contain colons
         parts = scalar[2:].split(':', 1)
         if len(parts) == 2:
+            # We support this only in version 3.0 and up.
+            if Version.nearest(version) < VER_3_0:
+                raise ValueError('XStr is not supported in Haystack '
+                                 'version %s' % version)
             return XStr(*parts)
 
     # Is it a reference?
